@@ -271,6 +271,19 @@ func loopOperandsFamily(budget time.Duration) mc.Family {
 			}
 		}
 	}
+	// control variables at the ends of the integer range: the loop ends when
+	// the next value would lie beyond the limit, also when it cannot be represented
+	ends := []string{"9223372036854775807", "9223372036854775806", "9223372036854775805", "-9223372036854775808", "-9223372036854775807", "-9223372036854775806"}
+	for _, i := range ends {
+		for _, st := range []string{"1", "2", "3", "-1", "-2", "-3", "9223372036854775807", "-9223372036854775808", "4611686018427387904"} {
+			for _, l := range ends {
+				for _, b := range []string{"", "pop", "count 6 ge {exit} if"} {
+					progs = append(progs, fmt.Sprintf("%s %s %s {%s} for count", i, st, l, b))
+					kinds = append(kinds, "for")
+				}
+			}
+		}
+	}
 	for _, n := range []string{"-1", "0", "1", "2", "3", "7", "0.5", "(a)", "true"} {
 		for _, b := range bodies {
 			progs = append(progs, fmt.Sprintf("9 %s {%s} repeat count", n, b))
@@ -285,7 +298,7 @@ func loopOperandsFamily(budget time.Duration) mc.Family {
 	}
 	return mc.Family{
 		Name: "loop-operands", Items: len(progs), Budget: budget,
-		Rule: fmt.Sprintf("`i s l {body} for` for every (i, s, l) in %v^3 (incl. increment 0 and reals), `9 n {body} repeat` for 9 counts incl. negative and non-integers, `9 c {body} forall` for 16 containers (arrays, strings with a byte >= 0x80, dictionaries with <= 1 entry, procedures, non-containers), each with %d bodies (empty, exit, pop, pop exit, dup, exit when the stack holds 6, an inner loop that exits, an inner repeat that exits); programs that do not end within the reference's step budget are skipped; non-trivial = the reference defines the outcome", nums, len(bodies)),
+		Rule: fmt.Sprintf("`i s l {body} for` for every (i, s, l) in %v^3 (incl. increment 0 and reals) and for 6 x 9 x 6 triples at the two ends of the integer range (the control variable would overflow), `9 n {body} repeat` for 9 counts incl. negative and non-integers, `9 c {body} forall` for 16 containers (arrays, strings with a byte >= 0x80, dictionaries with <= 1 entry, procedures, non-containers), each with %d bodies (empty, exit, pop, pop exit, dup, exit when the stack holds 6, an inner loop that exits, an inner repeat that exits); programs that do not end within the reference's step budget are skipped; non-trivial = the reference defines the outcome", nums, len(bodies)),
 		Body: func(c *mc.Ctx, item int) mc.Verdict {
 			return judge(c, "loop-operands", progs[item], map[string]bool{kinds[item]: true})
 		},
@@ -430,6 +443,91 @@ func nestedForallFamily(budget time.Duration) mc.Family {
 		Describe: func(item int) string { return progs[item].text },
 		CrashKey: func(item int) string { return "C03:crash:nested-forall" },
 	}
+}
+
+// tailCallsFamily: (1) a procedure name that stands last in a body replaces the
+// finished body (a tail call): loops built that way run any number of rounds
+// without nesting; a name that does not stand last returns to its caller.
+// (2) `exit` is not an error: it leaves the innermost loop also when the
+// program has installed its own handlers in errordict.
+func tailCallsFamily(budget time.Duration) mc.Family {
+	type prog struct{ text, want string }
+	var progs []prog
+	for _, n := range []int{1, 2, 10, 49, 50, 51, 97, 98, 99, 100, 101, 150, 300, 1000, 5000} {
+		progs = append(progs,
+			prog{fmt.Sprintf("/n 0 def /f { /n n 1 add def n %d eq {exit} if f } def { f } loop n", n), fmt.Sprint(n)},
+			prog{fmt.Sprintf("/n 0 def /g { /n n 1 add def } def /f { g n %d eq {exit} if f } def { f } loop n", n), fmt.Sprint(n)},
+			prog{fmt.Sprintf("/n 0 def /f { /n n 1 add def n %d eq {stop} if g } def /g { f } def f", n), ""},
+			prog{fmt.Sprintf("/g { 1 add } def /f { g g g } def 0 %d { f } repeat", n), fmt.Sprint(3 * n)},
+			prog{fmt.Sprintf("/g { 1 add } def /f { g } def /h { f } def 0 1 1 %d { pop h } for", n), fmt.Sprint(n)},
+		)
+		if n <= 45 {
+			// through if / ifelse every round nests (the limit is C11's business): small counts only
+			progs = append(progs,
+				prog{fmt.Sprintf("/f { dup %d ne { 1 add f } if } def 0 f", n), fmt.Sprint(n)},
+				prog{fmt.Sprintf("/f { dup %d eq { } { 1 add f } ifelse } def 0 f", n), fmt.Sprint(n)},
+			)
+		}
+	}
+	handlers := []string{"",
+		"errordict /invalidexit { (caught) } put ",
+		"errordict /invalidexit { pop } put errordict /undefined { (caught) } put errordict /stackunderflow { (caught) } put ",
+		"errordict /handleerror { (caught) } put errordict /invalidexit { stop } put ",
+		"errordict /invalidexit { exit } put ",
+		"errordict begin /invalidexit { (caught) } def end ",
+	}
+	loops := []prog{
+		{"0 1 1 10 { add dup 6 eq {exit} if } for", "6"},
+		{"{ (a) exit (b) } loop", "(a)"},
+		{"5 { 1 exit 2 } repeat", "1"},
+		{"[7 8 9] { exit } forall", "7"},
+		{"(xyz) { exit } forall", "120"},
+		{"<< /k 4 >> { exit } forall", "/k 4"},
+		{"1 1 3 { { exit } loop } for", "1 2 3"},
+		{"{ { { exit } loop exit } loop exit } loop 5", "5"},
+		{"{ true { exit } if 1 } loop 2", "2"},
+		{"{ false { 1 } { exit } ifelse 1 } loop 3", "3"},
+		{"{ { exit } exec 1 } loop 4", "4"},
+		{"/e { exit } def { e 1 } loop 5", "5"},
+		{"/e { exit } def { { e } exec 1 } loop 6", "6"},
+		{"3 { { exit } loop 7 } repeat", "7 7 7"},
+	}
+	for _, h := range handlers {
+		for _, l := range loops {
+			progs = append(progs, prog{h + l.text, l.want})
+		}
+	}
+	return mc.Family{
+		Name: "tail-calls-and-exit-handlers", Items: len(progs), Budget: budget,
+		Rule: fmt.Sprintf("%d programs with a closed-form result: loops made of a procedure that calls itself (directly, through a second procedure, through a helper that returns first) as the last element of its body, for 1..5000 rounds (such a call replaces the finished body and does not nest); names that stand last in a body called 3n times; recursion through if / ifelse for <= 45 rounds; %d loops left by exit (every loop operator, exit inside if / ifelse / exec / a named procedure, nested loops) x %d sets of handlers installed in errordict by the program (none; invalidexit; invalidexit + others; handleerror; a handler that itself exits): exit is not an error and never reaches a handler; non-trivial = all", len(progs), len(loops), len(handlers)),
+		Body: func(c *mc.Ctx, item int) mc.Verdict {
+			p := progs[item]
+			intp := postscript.NewInterpreter()
+			intp.MaxOps = 1000000
+			err := intp.ExecuteString(p.text)
+			c.Step()
+			got := pscmp.ShowStack(intp.Stack)
+			if err != nil || got != p.want {
+				v := mc.Fail("C03:tail-calls-and-exit-handlers:wrong-result", fmt.Sprintf("program `%s`: error %v, operand stack [%s], expected [%s]", p.text, err, clipS(got), p.want))
+				v.Render = p.text
+				return v
+			}
+			v := mc.Pass("ok", true)
+			if c.Render() {
+				v.Render = p.text + " → " + got
+			}
+			return v
+		},
+		Describe: func(item int) string { return progs[item].text },
+		CrashKey: func(item int) string { return "C03:crash:tail-calls-and-exit-handlers" },
+	}
+}
+
+func clipS(s string) string {
+	if len(s) > 200 {
+		return s[:200] + "…"
+	}
+	return s
 }
 
 // stopInsideEexecFamily: `stop` ends the program — also when it is executed
@@ -597,6 +695,7 @@ func main() {
 				repetitionFamily(budget),
 				nestedForallFamily(budget),
 				stopInsideEexecFamily(budget),
+				tailCallsFamily(budget),
 			}
 		},
 	})
